@@ -25,11 +25,11 @@ O = 'Scalibr.Override.'
 R = 'Scalibr.Relax.'
 S = 'Scalibr.Suggest.'
 M = 'Scalibr.OverrideMulti.'
-THEOREMS = [U + 'C11_allows_table', U + 'C11_allows_meaning', U + 'C11_rank_exists_iff', U + 'C11_rank_is_order_partial', U + 'C11_no_rank_of_cycle',
-            O + 'C11_override_step', O + 'C11_override_upward_partial', O + 'C11_override_unsorted_witness', O + 'C11_override_equal_version_fixed',
+THEOREMS = [U + 'C11_allows_table', U + 'C11_allows_meaning', U + 'C11_rank_exists_iff', U + 'C11_rank_is_order_partial', U + 'C11_no_rank_of_cycle', U + 'C11_semantic_maven_has_no_rank',
+            O + 'C11_override_step', O + 'C11_override_upward_partial', O + 'C11_override_upward_cmp_partial', O + 'C11_override_unsorted_witness', O + 'C11_override_equal_version_fixed',
             O + 'C11_cumulative_partial', O + 'C11_terminates_partial', O + 'C11_terminates_bound_partial',
             M + 'C11_terminates_multi_partial', M + 'C11_terminates_multi_bound_partial', M + 'C11_cumulative_multi_partial',
-            O + 'C11_none_untouched_override', 'Scalibr.OverrideMulti.C11_override_multi_step', 'Scalibr.OverrideMulti.C11_none_untouched_multi', 'Scalibr.OverrideMulti.C11_override_pin_overtaken_witness', R + 'C11_relax_step', R + 'C11_none_untouched_relax', S + 'C11_update_step', S + 'C11_update_no_current', S + 'C11_update_reported', S + 'C11_update_patch',
+            O + 'C11_none_untouched_override', 'Scalibr.OverrideMulti.C11_override_multi_step', 'Scalibr.OverrideMulti.C11_override_multi_upward_partial', 'Scalibr.OverrideMulti.C11_none_untouched_multi', 'Scalibr.OverrideMulti.C11_override_pin_overtaken_witness', R + 'C11_relax_step', R + 'C11_none_untouched_relax', S + 'C11_update_step', S + 'C11_update_step_cmp_partial', S + 'C11_update_no_current', S + 'C11_update_reported', S + 'C11_update_patch',
             S + 'C11_none_untouched_update', S + 'C11_update_fixed_witnesses']
 
 
@@ -60,7 +60,7 @@ def run(ctx):
                        'HonoursPins (re-resolution yields the pinned version): hypothesis of C11_cumulative / C11_terminates, observed on every override case (req = final)',
                        'the order is the one the library uses (mavenutil.CompareVersions for Maven, semver.NPM.Compare for npm); distinct known versions compare unequal in the override universes',
                        'Relax: requirements that are not semver constraints (dist-tags) are outside the model']
-    ctx.rule = ('rx = (level, one of 25 requirement shapes, 1-12 npm versions incl. pre-releases and 0.x) through the real NpmRelaxer.Relax; sg = (level, plain/range requirement, 1-13 Maven versions, '
+    ctx.rule = ('rx = (level, single comparators and || unions of 2-3 islands with releases in the gaps, 1-12 npm versions incl. pre-releases and 0.x, half of the universes with dist-tags: latest below / inside / above the range, next, beta) through the real NpmRelaxer.Relax, old and new requirement resolved by the real npm resolver; sg = (level, plain/range requirement, 1-13 Maven versions, '
                 'a few guava/commons universes) through the real suggestMavenVersion; ov = (level, direct or transitive dependency on g:p, 1-12 Maven versions, 1-3 vulnerabilities with fixed / '
                 'last_affected / explicit lists) through the real override patchVulns loop with in-memory resolve client and local matcher; mo = three Maven packages (two direct, one transitive whose version depends on the '
                 'direct ones; 2-6 versions each with patch/minor/major steps), 2-4 vulnerability records of which about half affect two packages, never-fixed and windowed advisories on the transitive package, per-package levels '
@@ -71,8 +71,8 @@ def run(ctx):
                 'versions across major and minor boundaries, ranges, unknown versions; per-package and default levels; IgnoreDev) through the real public Update, judged per requirement on result.Patches and per declaration on the re-read pom. thorough adds every subset of 6 versions x level x '
                 '1-2 chained vulnerabilities (override) and 25 requirements x 4 levels x 3 universes (relax). non-trivial = the real code changed something; distinct = distinct case lines')
     gen_ok = regenerate_allows(ctx)
-    ok, _ = ctx.lean_build(['Scalibr.Properties.C11', 'drv_c11'])
-    proofs_ok = ctx.audit(['Scalibr.Properties.C11'], THEOREMS) and gen_ok
+    ok, _ = ctx.lean_build(['Scalibr.Properties.C11', 'Scalibr.Properties.C11MavenCycle', 'drv_c11'])
+    proofs_ok = ctx.audit(['Scalibr.Properties.C11', 'Scalibr.Properties.C11MavenCycle'], THEOREMS) and gen_ok
     if ctx.tier == 'thorough':
         proofs_ok = ctx.leanchecker('Scalibr.Properties.C11') and proofs_ok
     n = {'quick': 4000, 'thorough': 40000}[ctx.tier]
@@ -109,7 +109,7 @@ def run(ctx):
             if r[:1] in ('t', 'c') and r[1:].isdigit():
                 a, _, b = fi.get('tops', '-1:-1').partition(':')
                 if int(b) <= int(a):
-                    return ('Relax: the new requirement admits at most version #%s, the old one admitted #%s (deps.dev matching on the known versions): not strictly upward' % (b, a))
+                    return ('Relax: the new requirement resolves to version #%s, the old one resolved to #%s (real npm resolver, dist-tags included): not strictly upward' % (b, a))
                 if not bit(fm.get('spec'), int(r[1:])):
                     return 'Relax built the requirement from version #%s, which is not strictly above the highest matching version #%s with an allowed difference' % (r[1:], fm.get('last'))
             elif r != 'fail':
